@@ -74,6 +74,7 @@ static jv *verdict_base(int ok)
 
 static jv *cur_call;
 static jv *cur_keys;
+static int keep_going;   /* fault-anywhere sweep: do not compare, never stop; only the final bookkeeping is judged */
 static int in_conc;
 static jv *soft_div;      /* an allocation-count-only difference seen earlier in this script */
 static int soft_offset;
@@ -115,12 +116,13 @@ static void apply_env(jv *s)
   int h = (int) j_int(s, "h", 1);
   int p = child_of(h);
   if (!strcmp(k, "adv")) { K->now += (int) j_int(s, "d", 1); return; }
+  if (p < 0 && keep_going) return;
   if (p < 0) diverge("badenv", k, s, NULL);
   if (!strcmp(k, "out") || !strcmp(k, "err")) {
     int tag = k[0] == 'o' ? 1 : 2;
     int n = (int) j_int(s, "n", 1);
     int r = sk_child_write(p, tag, n, tag, &coff[h][tag]);
-    if (r != n) { jv *o = j_mkint(r); diverge("envfail", k, s, o); }
+    if (r != n && !keep_going) { jv *o = j_mkint(r); diverge("envfail", k, s, o); }
   } else if (!strcmp(k, "exit")) {
     sk_child_exit(p, ((int) j_int(s, "code", 0) & 0xff) << 8);
   } else if (!strcmp(k, "die")) {
@@ -132,7 +134,7 @@ static void apply_env(jv *s)
   } else if (!strcmp(k, "cread")) {
     int n = (int) j_int(s, "n", 1);
     int r = sk_child_read(p, 0, n);
-    if (r != (int) j_int(s, "got", n)) { jv *o = j_mkint(r); diverge("envfail", k, s, o); }
+    if (r != (int) j_int(s, "got", n) && !keep_going) { jv *o = j_mkint(r); diverge("envfail", k, s, o); }
   } else {
     diverge("badenv", k, s, NULL);
   }
@@ -221,9 +223,11 @@ static int env_pull(void)
 static jv *obs_all(jv *call, long r, jv *extra);
 
 static void finish_trace_stuck(void);
+static void finish_keepgoing(int hung);
 static void on_hang(const char *what)
 {
   if (free_mode) finish_trace_stuck();
+  if (keep_going) finish_keepgoing(1);
   /* the code blocks although the model says the call returns here (or the script ended) */
   jv *o = j_mkobj();
   j_put(o, "blocked_in", j_mkstr(what));
@@ -997,6 +1001,32 @@ static void finish_trace_stuck(void)
   __real__exit(10);
 }
 
+/* fault-anywhere sweep: whatever happened, release everything and report the bookkeeping */
+static void finish_keepgoing(int hung)
+{
+  jv *v = verdict_base(1);
+  int base_fd = sk_nfds(0);
+  if (!hung) {
+    K->gfault_index = 0;
+    for (int h = 1; h < MAXH; h++) if (H[h]) {
+      /* make sure destroy can finish: the child dies on SIGKILL at the latest */
+      int p = child_of(h);
+      if (p > 0 && K->proc[p].state == PS_RUNNING) sk_child_exit(p, 9);
+      K->cur_handle = h; K->in_api = 1; H[h] = reproc_destroy(H[h]); K->in_api = 0;
+    }
+  }
+  (void) base_fd;
+  jv *mon = j_mkarr();
+  for (int i = 0; i < K->nlog; i++) if (K->log[i].kind == LK_MON && K->log[i].side == 0) { jv *t = j_mkarr(); j_push(t, j_mkint(K->log[i].a)); j_push(t, j_mkint(K->log[i].b)); j_push(mon, t); }
+  int unreaped = 0;
+  for (int i = 1; i < SK_MAXPROC; i++) if (K->proc[i].state == PS_ZOMBIE && (K->proc[i].execd || K->proc[i].forkmode_child) == 0) unreaped++;
+  j_put(v, "kg", j_mkint(1)); j_put(v, "hung", j_mkint(hung)); j_put(v, "gcount", j_mkint(K->gcount)); j_put(v, "gkind", j_mkint(K->gfault_kind));
+  j_put(v, "hit", j_mkint(K->fault_hits)); j_put(v, "nfd", j_mkint(sk_nfds(0))); j_put(v, "nalloc", j_mkint(sk_nalloc())); j_put(v, "mon", mon);
+  j_put(v, "failed_children_unreaped", j_mkint(unreaped));
+  emit(v);
+  __real__exit(10);
+}
+
 /* ---------- main loop over one script ---------- */
 static void run_script(jv *s)
 {
@@ -1008,6 +1038,8 @@ static void run_script(jv *s)
   sk_on_term_later = on_term_later;
   setup(cfg);
   free_mode = (int) j_int(cfg, "free", 0);
+  K->gfault_index = (int) j_int(cfg, "gfault", 0);
+  keep_going = (int) j_int(cfg, "keepgoing", 0);
   memset(fsch, 0, sizeof fsch);
   for (int h = 0; h < MAXH; h++) fsch[h].die_at = -1;
   if (opt_trace || free_mode) { trace = j_mkarr(); j_push(trace, cfg); }
@@ -1050,6 +1082,12 @@ static void run_script(jv *s)
         jv *rec = j_mkobj();
         j_put(rec, "e", j_mkstr("obs")); j_put(rec, "call", st); j_put(rec, "o", o);
         j_push(trace, rec);
+      }
+      if (keep_going) {
+        /* skip the environment steps the model placed inside this call if the code did not consume them */
+        while (pos < s->n && is_env(s->a[pos])) { apply_env(s->a[pos]); pos++; }
+        if (pos < s->n && !strcmp(j_str(s->a[pos], "e", ""), "ret")) pos++;
+        continue;
       }
       if (ret && is_env(ret)) {
         /* the model still expects environment steps inside this call: the code returned early */
@@ -1112,6 +1150,7 @@ static void run_script(jv *s)
     if (!strcmp(e, "cfg")) { pos++; continue; }
     diverge("badscript", e, st, NULL);
   }
+  if (keep_going) finish_keepgoing(0);
   if (soft_div) {
     cur_call = j_get(soft_div, "call"); cur_keys = j_mkarr(); j_push(cur_keys, j_mkstr("nalloc"));
     jv *sd = soft_div; soft_div = NULL;
